@@ -121,8 +121,9 @@ int main(int argc, char** argv)
   std::set_terminate(on_terminate);
 
   std::unique_ptr<MapIface> map;
-  std::unique_ptr<rlbox_sandbox<Sbx>> sb;
+  std::unique_ptr<rlbox_sandbox<Sbx>> sb, other;
   std::unique_ptr<Owners> ow;
+  long long xtoken = 0; // token of the last owner-level operation, presented to `other` afterwards
   unsigned long long max = 0;
   long next_ptr = 1;
 
@@ -135,6 +136,10 @@ int main(int argc, char** argv)
         }
       }
       ow.reset();
+    }
+    if (other) {
+      other->destroy_sandbox();
+      other.reset();
     }
     if (sb) {
       sb->destroy_sandbox();
@@ -163,6 +168,11 @@ int main(int argc, char** argv)
         sb = std::make_unique<rlbox_sandbox<Sbx>>();
         sb->create_sandbox();
         sb->get_sandbox_impl()->reported_total = max + 1;
+        // a second live sandbox of the same type that never registers anything: a token issued by
+        // the first one means nothing to it
+        other = std::make_unique<rlbox_sandbox<Sbx>>();
+        other->create_sandbox();
+        other->get_sandbox_impl()->reported_total = max + 1;
         ow = std::make_unique<Owners>();
         e.raw("owners", "[\"o1\",\"o2\",\"o3\"]");
       } else {
@@ -262,6 +272,7 @@ int main(int argc, char** argv)
           e.str("out", "abort");
         }
         e.num("t", t);
+        xtoken = t;
       } else if (op == "ounreg") {
         std::string o;
         is >> o;
@@ -309,6 +320,7 @@ int main(int argc, char** argv)
         try {
           auto t = ow->at(i).to_tainted();
           e.num("t", (long long)t.UNSAFE_sandboxed(*sb));
+          xtoken = (long long)t.UNSAFE_sandboxed(*sb);
           int* p = sb->lookup_app_ptr(t);
           e.str("out", "ok").num("p", id_of(p));
         } catch (const std::runtime_error&) {
@@ -318,6 +330,7 @@ int main(int argc, char** argv)
         unsigned long long t;
         is >> t;
         e.num("t", (long long)t);
+        xtoken = (long long)t;
         try {
           auto tp = sb->UNSAFE_accept_pointer(
             reinterpret_cast<int*>(sb->get_sandbox_impl()->base + t));
@@ -337,6 +350,21 @@ int main(int argc, char** argv)
       e.raw("own", own_projection(*sb, *ow));
     }
     out.put(e);
+    if (ow && other && xtoken != 0 && (op == "oget" || op == "lookupt" || op == "olookup")) {
+      // the same token value presented to the OTHER sandbox
+      long long t = xtoken;
+      tr::Ev x("xlookup");
+      x.num("t", t);
+      try {
+        auto tp = other->UNSAFE_accept_pointer(reinterpret_cast<int*>(other->get_sandbox_impl()->base + t));
+        int* p = other->lookup_app_ptr(tp);
+        x.str("out", "ok").num("p", id_of(p));
+      } catch (const std::runtime_error&) {
+        x.str("out", "abort").num("p", 0);
+      }
+      x.raw("own", own_projection(*sb, *ow));
+      out.put(x);
+    }
   }
   teardown();
   out.close();
